@@ -10,6 +10,7 @@
 import Upnp.Lemmas.C02Total
 import Upnp.Lemmas.C02Listener
 import Upnp.Lemmas.C02Interface
+import Upnp.Props.C01
 import Upnp.Gen.C01Ssdp
 import Upnp.Gen.C02Recv
 import Upnp.Gen.C02Sites
@@ -606,6 +607,71 @@ theorem recv_sequence_inert (cfg : Cfg) (t : Tracker) (pre : List (Endpoint × B
           rfl
   apply happ pre t t1 e1 _ t2 (noEff :: e2) h1
   simp [recvAll, hr, h2]
+
+/-! ### a well-formedness that is not the model's own classifier read twice -/
+
+/-- **an externally characterised well-formed message is dispatched**: every `NOTIFY` the library's own
+    builder makes from a well-formed header map (C01's `wfHeaders`) that has `NTS: ssdp:alive` (name in any
+    spelling) and no `MAN` header is, from every sender, at every clock value, classified `notify` for
+    the advertisement listener — by `decode_build` (the decoder inverts the builder), not by unfolding
+    the classifier on itself; with `dispatched_effect` the listener's callback fires. -/
+theorem classify_built_alive (cfg : Cfg) (hpre : cfg.prefixes = Gen.C01Ssdp.ssdpPrefixes)
+    (sep : Bytes) (hsep : SepOk sep) (hs : List (Bytes × Bytes)) (hwf : wfHeaders Gen.C01Ssdp.metaKeys hs = true)
+    (hnts : ∃ p ∈ hs, lower p.1 = ofString "nts" ∧ p.2 = ofString "ssdp:alive")
+    (hman : ∀ p ∈ hs, lower p.1 ≠ ofString "man")
+    (loc : Option Addr) (src : Addr) (now : Int) :
+    classify cfg .adv (build sep (ofString "NOTIFY * HTTP/1.1") hs) loc src now = some .notify := by
+  have hsl : ofString "NOTIFY * HTTP/1.1" ∈ Gen.C01Ssdp.ssdpPrefixes := by decide
+  obtain ⟨_, hres, hd⟩ := wfHeaders_spec hwf
+  have hr : ∀ p ∈ hs, NotReserved (lower p.1) := fun p hp => notReserved_of (hres p hp)
+  have hdec : decodeX Fixes.all (build sep (ofString "NOTIFY * HTTP/1.1") hs) loc src now
+      = .ok (ofString "NOTIFY * HTTP/1.1", decoded hs loc src now) := by
+    rw [decoder_is_C01, decode_build_wire sep hsep _ hsl hs hwf]; rfl
+  have hgate := gate_build sep (ofString "NOTIFY * HTTP/1.1") hs hsl
+  unfold classify protocolRecv
+  rw [hpre]
+  simp only [hgate, Bool.not_true, Bool.false_eq_true, if_false, hdec]
+  -- the two look-ups of `advClassify`
+  have getL_eq : ∀ (k : String), lower (ofString k) = ofString k →
+      getL (decoded hs loc src now) k = CIDict.getitem lower (decoded hs loc src now) (ofString k) := by
+    intro k hk; unfold getL CIDict.getitem CIDict.getLower; rw [hk]
+  obtain ⟨p, hp, hpk, hpv⟩ := hnts
+  have hnts' : getL (decoded hs loc src now) "nts" = some (.str (ofString "ssdp:alive")) := by
+    rw [getL_eq "nts" (by decide), decoded_sent hd hr loc src now hp (by rw [hpk]; decide) (ofString "nts") (by rw [hpk]; decide), hpv]
+  have hman' : getL (decoded hs loc src now) "man" = none := by
+    rw [getL_eq "man" (by decide), decoded_get hd]
+    have l : lower (ofString "man") = ofString "man" := by decide
+    rw [l, callMeta_get?_none _ _ _ _ (by decide), lastCI_none (ofString "man") hman]
+    have : PyDict.get? (extras hs (udnOf hs) (withoutPort src)) (ofString "man") = none := by
+      rw [PyDict.get?_eq_none_iff]
+      intro hk
+      rcases (extras_keys hs _ _ _ hk).2 with x | x | x | x <;> revert x <;> decide
+    rw [this]; rfl
+  unfold advClassify
+  rw [hman', hnts']
+  decide
+
+/-- … hence, by `dispatched_effect`, the advertisement listener's callback fires for it (any tracker state
+    satisfying the invariant, any clock reading up to `datetime.max`) -/
+theorem built_alive_notifies (cfg : Cfg) (hpre : cfg.prefixes = Gen.C01Ssdp.ssdpPrefixes)
+    (sep : Bytes) (hsep : SepOk sep) (hs : List (Bytes × Bytes)) (hwf : wfHeaders Gen.C01Ssdp.metaKeys hs = true)
+    (hnts : ∃ p ∈ hs, lower p.1 = ofString "nts" ∧ p.2 = ofString "ssdp:alive")
+    (hman : ∀ p ∈ hs, lower p.1 ≠ ofString "man")
+    (loc : Option Addr) (src : Addr) (now : Int) (hnow : now ≤ cfg.trk.tMax) (t : Tracker) (hn : C03.Inv t) :
+    ∃ t' eff, recv Fixes.all cfg .adv t (build sep (ofString "NOTIFY * HTTP/1.1") hs) loc src now = .ok (t', eff)
+      ∧ eff.cbMin ≥ 1 := by
+  obtain ⟨t', eff, h⟩ := recv_total cfg .adv t (build sep (ofString "NOTIFY * HTTP/1.1") hs) loc src now
+  exact ⟨t', eff, h, (dispatched_effect_closed cfg .adv t t' eff _ loc src now hnow hn h).2 _
+    (classify_built_alive cfg hpre sep hsep hs hwf hnts hman loc src now)⟩
+
+/-- non-vacuity: a three-header advertisement satisfies the hypotheses of `classify_built_alive` -/
+example :
+    let hs : List (Bytes × Bytes) :=
+      [(ofString "NT", ofString "upnp:rootdevice"), (ofString "Nts", ofString "ssdp:alive"),
+       (ofString "USN", ofString "uuid:d1::upnp:rootdevice")]
+    wfHeaders Gen.C01Ssdp.metaKeys hs = true
+    ∧ (hs.any fun p => lower p.1 == ofString "nts" && p.2 == ofString "ssdp:alive") = true
+    ∧ (hs.all fun p => lower p.1 != ofString "man") = true := by decide +kernel
 
 /-! ### each repair is necessary: one raising datagram per unrepaired variant
 
